@@ -329,14 +329,18 @@ CLAIMED["C07"] = {
     "with the logit post-rescaling): closed forms, log-Jacobian in image "
     "and log space, non-sampling fields and the other array untouched, "
     "and the round trip of the whole reparameterisation as a pair lemma; "
+    "RescaleToBounds.__init__ (configure_pre/post_rescaling inlined): no "
+    "prime prior is offered once a post-rescaling is configured, logit "
+    "forces unit rescale bounds and is rejected with moving bounds; "
     "the prime prior: log_uniform_prior is the log-indicator of "
     "[xmin, xmax] and RescaleToBounds.x_prime_log_prior is the product of "
     "the per-parameter uniform priors (support = the box of prime bounds; "
     "two parameters unrolled), raising exactly when no prime prior is "
     "configured.",
     "note": "NOT under contract (named as unverified): RescaleToBounds "
-    "constructor / configure_* (which options combine: seed C07-d is "
-    "missed), pre-rescaling, "
+    "constructor beyond the two option families under contract (no "
+    "post-rescaling / logit; default rescale bounds, no inversion, no "
+    "offset), pre-rescaling, "
     "inversion (split / duplicate), update_bounds / update_prime_prior_bounds "
     "(how the prime bounds are derived), Angle, "
     "ToCartesian, AnglePair, CombinedReparameterisation, "
